@@ -1,6 +1,6 @@
 (** CmdC20.v — command table of the model runner for property C20
     (commands 2000 .. 2099 of [run_cmd]; local number = c mod 100). *)
-From JSL Require Import Base Instance Dstate Filters World Feasible Gantt GanttSpec.
+From JSL Require Import Base Instance Dstate Filters World Feasible Gantt GanttSpec Frames.
 
 (** 1: [I; rows; requested xlim (option); number_of_x_ticks] -> the chart *)
 Definition cmd_chart (v : val) : val :=
@@ -61,6 +61,9 @@ Definition cmd_load_order (v : val) : val :=
 Definition cmd_load_order_str (v : val) : val :=
   vlist enc_name (load_order_str (asLof dec_name v)).
 
+(** 8: images [[h; w; rows]; ...] -> the images [_pad_to_common_shape] hands on *)
+Definition cmd_pad (v : val) : val := vlist enc_image (pad_to_common_shape (asLof dec_image v)).
+
 Definition run_c20 (c : Z) (v : val) : val :=
   match c with
   | 1 => cmd_chart v
@@ -70,5 +73,6 @@ Definition run_c20 (c : Z) (v : val) : val :=
   | 5 => cmd_names v
   | 6 => cmd_load_order v
   | 7 => cmd_load_order_str v
+  | 8 => cmd_pad v
   | _ => VL []
   end.
